@@ -574,6 +574,125 @@ pub fn h_repeated_go<M: VMode, Er: VEr, const B: usize, const FAST: bool>() {
     });
 }
 
+/// `SeparatedBy` used directly as a parser (no collect): the reference is the separator/item state
+/// machine of the statement run over the logged attempts (items in slots 0..3, separators in 3..6).
+pub fn h_sepby_go<M: VMode, Er: VEr, const R: usize>() {
+    run::<u8, Er, (), _>(|inp, s0| {
+        let at_least = ch::below(2);
+        let capped = ch::any_bool();
+        let cap = ch::below(2);
+        ch::assume(!capped || at_least <= cap);
+        let lead = ch::any_bool();
+        let trail = ch::any_bool();
+        let mut item = anyp_multi::<SymIn<u8>, X<Er>>(0, R);
+        item.progress = true;
+        item.bounded = true;
+        let sep = anyp_multi::<SymIn<u8>, X<Er>>(3, R);
+        let mut p = item.separated_by(sep).at_least(at_least);
+        if capped {
+            p = p.at_most(cap);
+        }
+        if lead {
+            p = p.allow_leading();
+        }
+        if trail {
+            p = p.allow_trailing();
+        }
+        let r = p.go::<M>(inp);
+        let s = snap(inp);
+        // reference run
+        let mut pos = s0.pos;
+        let mut nsec = s0.nsec;
+        let mut spec = SecSpec::pre(&s0);
+        let mut n = 0usize; // accepted items
+        let mut ic = 0usize; // item attempts
+        let mut sc = 0usize; // separator attempts
+        let mut chain = true;
+        let mut done = false;
+        let mut ok = false;
+        let mut either: Option<(usize, SecSpec)> = None; // alternative end state where the statement is silent
+        let mut round = 0;
+        while round < R {
+            if !done {
+                if capped && n >= cap {
+                    done = true;
+                    ok = true;
+                } else {
+                    let before = (pos, nsec, spec);
+                    let mut sep_used = false;
+                    let mut stop = false;
+                    if (n == 0 && lead) || n > 0 {
+                        let l = lg(inp, 3 + sc);
+                        sc += 1;
+                        if !(l.called && l.calls == 1 && l.entry_pos == pos && l.entry_sec == nsec && l.entry_believed == pos) {
+                            chain = false;
+                        }
+                        if l.ok {
+                            sep_used = true;
+                            pos = l.exit_pos;
+                            nsec = nsec.wrapping_add(l.emitted);
+                            spec = spec.child(3, &l);
+                        } else if n > 0 {
+                            stop = true; // list ends: no separator after an item
+                        }
+                    }
+                    if stop {
+                        done = true;
+                        ok = n >= at_least;
+                    } else {
+                        let l = lg(inp, ic);
+                        ic += 1;
+                        if !(l.called && l.calls == 1 && l.entry_pos == pos && l.entry_sec == nsec && l.entry_believed == pos) {
+                            chain = false;
+                        }
+                        if l.ok {
+                            n += 1;
+                            pos = l.exit_pos;
+                            nsec = nsec.wrapping_add(l.emitted);
+                            spec = spec.child(0, &l);
+                        } else {
+                            done = true;
+                            ok = n >= at_least;
+                            let after_sep = (pos, nsec, spec);
+                            // give the separator back unless a trailing one is allowed
+                            if !(sep_used && trail) {
+                                pos = before.0;
+                                nsec = before.1;
+                                spec = before.2;
+                            }
+                            if sep_used && n == 0 {
+                                // lone leading separator: kept or given back, both accepted
+                                either = Some(if trail { (before.0, before.2) } else { (after_sep.0, after_sep.2) });
+                            }
+                        }
+                    }
+                }
+            }
+            round += 1;
+        }
+        vassert!(done, "FW/driver-bound-sufficient");
+        ch::assume(done);
+        // attempts beyond the reference run must not have happened
+        let extra_item = ic < R && lg(inp, ic).called;
+        let extra_sep = sc < R && lg(inp, 3 + sc).called;
+        vassert!(chain && !extra_item && !extra_sep, "C02/separated_by_go.attempts-follow-the-separator-item-state-machine");
+        vassert!(r.is_ok() == ok, "C02/separated_by_go.succeeds-iff-count-within-bounds");
+        if r.is_ok() {
+            vcover!(n == R - 1, "separated_by.go: maximal number of items");
+            vcover!(n == 0, "separated_by.go: no items");
+            let main = s.pos == pos && spec.holds(&s, Er::ZST);
+            let alt = match either {
+                Some((p2, sp2)) => s.pos == p2 && sp2.holds(&s, Er::ZST),
+                None => false,
+            };
+            vassert!((main || alt) && s.believed == s.pos, "C02/separated_by_go.position-and-emissions-of-accepted-items-and-separators-only");
+        } else {
+            vcover!(true, "separated_by.go: too few items");
+            vassert!(s.alt.is_some(), "C20/separated_by_go.failure-leaves-pending-error");
+        }
+    });
+}
+
 harnesses! {
     repeated_next_emit = h_repeated_next::<Emit, VS, false>;
     repeated_next_check = h_repeated_next::<Check, VS, false>;
@@ -610,4 +729,10 @@ harnesses! {
     repeated_go_counted_emit_b3 = h_repeated_go::<Emit, VS, 3, false>;
     #[kani::unwind(5)]
     repeated_go_counted_check_b3 = h_repeated_go::<Check, VS, 3, false>;
+    #[kani::unwind(4)]
+    sepby_go_emit_b2 = h_sepby_go::<Emit, VS, 2>;
+    #[kani::unwind(4)]
+    sepby_go_check_b2 = h_sepby_go::<Check, VS, 2>;
+    #[kani::unwind(5)]
+    sepby_go_emit_b3_t = h_sepby_go::<Emit, VS, 3>;
 }
